@@ -8,7 +8,7 @@ use miette::NamedSource;
 use pavex_bp_schema::{CloningPolicy, Lifecycle};
 
 use crate::compiler::analyses::components::{ComponentDb, ComponentId};
-use crate::compiler::analyses::components::{ConsumptionMode, HydratedComponent};
+use crate::compiler::analyses::components::{ConsumptionMode, HydratedComponent, SourceId};
 use crate::compiler::analyses::computations::ComputationDb;
 use crate::compiler::analyses::user_components::{
     ScopeGraph, ScopeId, UserComponentDb, UserComponentId,
@@ -160,6 +160,16 @@ impl ConstructibleDb {
             }
 
             let scope_id = component_db.scope_id(component_id);
+            // Error handlers are stored as transformers, but they are still registered by the user:
+            // problems with their inputs must be reported too.
+            let user_component_id = component_db.user_component_id(component_id).or_else(|| {
+                match component_db[component_id].source_id() {
+                    SourceId::UserComponentId(id) if component_db.is_error_handler(component_id) => {
+                        Some(id)
+                    }
+                    _ => None,
+                }
+            });
             let resolved_component = component_db.hydrated_component(component_id, computation_db);
             let input_types = {
                 let mut input_types: Vec<Option<Type>> = resolved_component
@@ -227,7 +237,7 @@ impl ConstructibleDb {
                     computation_db,
                     framework_items_db,
                 ) else {
-                    if let Some(user_component_id) = component_db.user_component_id(component_id) {
+                    if let Some(user_component_id) = user_component_id {
                         self.missing_constructor(
                             user_component_id,
                             component_db.user_db(),
@@ -253,8 +263,7 @@ impl ConstructibleDb {
                     let lifecycle = component_db.lifecycle(input_component_id);
                     match lifecycle {
                         Lifecycle::Singleton => {
-                            if let Some(user_component_id) =
-                                component_db.user_component_id(component_id)
+                            if let Some(user_component_id) = user_component_id
                             {
                                 Self::mut_ref_to_singleton(
                                     user_component_id,
@@ -276,8 +285,7 @@ impl ConstructibleDb {
                         Lifecycle::RequestScoped => {
                             let cloning_policy = component_db.cloning_policy(input_component_id);
                             if cloning_policy == CloningPolicy::CloneIfNecessary {
-                                if let Some(user_component_id) =
-                                    component_db.user_component_id(component_id)
+                                if let Some(user_component_id) = user_component_id
                                 {
                                     Self::mut_ref_to_cloneable_request_scoped(
                                         user_component_id,
@@ -298,8 +306,7 @@ impl ConstructibleDb {
                             }
                         }
                         Lifecycle::Transient => {
-                            if let Some(user_component_id) =
-                                component_db.user_component_id(component_id)
+                            if let Some(user_component_id) = user_component_id
                             {
                                 Self::mut_ref_to_transient(
                                     user_component_id,
